@@ -75,6 +75,42 @@ CLAIMED = {
         note="Trusted: rustc HIR/MIR; the documented fmt template encoding.",
         technique="static analysis: typed-HIR guard/template extraction with format-template decoding (A14/A16), MIR control dependence and loop must-pass (A13), who-may-write (A10)",
     ),
+    "C04": dict(
+        text="Decides preservation of names and the mechanisms values depend on: the pass-through filter withholds exactly class/data-src-line/_/__; every standard SVG 1.1 attribute name that is popped/removed anywhere is in a reviewed table (geometry re-set from the computed box, dx/dy only outside text/tspan/feOffset - verified by constant-propagating reachability -, id on reuse instances) and computed-key removals are reviewed per function; geometry is rewritten only under a computed bounding box and unit/percentage values bypass parsing; attribute values and text survive the reader/writer round trip (escape balance); a retried element leaves the depth counter intact. Acceptance of the SVG number/path/points/transform grammars by the hand-written scanners (language inclusion) and value preservation up to rounding are NOT decided.",
+        design_ref="DESIGN.md section 4 C04",
+        note="Trusted: policy/spec/svg11_attributes.json; the reviewed consumption table in props/C04.py. Known finding: F15-residual.",
+        technique="static analysis: MIR literal-vocabulary extraction of consumed attribute names against an SVG 1.1 name table (A14), dominance / bool-constant reachability (A13), shared A11 and A5 rules",
+    ),
+    "C08": dict(
+        text="Decides the synthesis discipline around the root extent, not its value: every synthesised root attribute (width, height, viewBox, version, xmlns, id) is control-dependent on the author's root lacking exactly that attribute, style only under svg_style; expand(border) dominates round(), which dominates every read of the extent; mm/scale only when neither width nor height is supplied; specs/var/config/defaults return no box, defs/symbol/point reset theirs, generated text is not consulted. The extent value itself (bbox union, transform/clip arithmetic, aspect ratio) is numeric and NOT decided.",
+        design_ref="DESIGN.md section 4 C08",
+        note="Trusted: rustc MIR/HIR; BoundingBox::expand/round arithmetic.",
+        technique="static analysis: MIR dominating-condition extraction on guarded inserts and call ordering (A13), typed-HIR arm summaries (A15)",
+    ),
+    "C09": dict(
+        text="Decides only the selection wiring of relative positioning, composed end-to-end against reference tables in external vocabulary: direction letters -> side of the reference box, nine location names and four edges -> bounding-box fields, scalar names -> field/operation, scalar -> location, xy-loc -> anchor attribute pair; the order of the resolve_position pipeline; a <point> becomes `^` before its box is discarded; no min/max of an operand with itself in geometry code. Gaps, centring, percent/negative offsets, dx/dy and exactness up to rounding - the core of the statement - are numeric and NOT decided.",
+        design_ref="DESIGN.md section 4 C09",
+        note="Trusted: rustc HIR/MIR. A pass means the selection tables and the pipeline order are intact, not that the geometry is right.",
+        technique="static analysis: typed-HIR dispatch-table extraction with let-resolution, composed and compared with reference tables (A15), MIR call ordering (A13), operand-identity lint (A16)",
+    ),
+    "C11": dict(
+        text="Decides attribute hygiene and wiring of uniform positioning: per shape, removed names plus native names cover the whole geometry vocabulary and no native name is removed; every shorthand is popped and its first/second component goes to the x-like/y-like longhand of the reference table; axis consistency - every value written to an x-axis (y-axis) geometry attribute depends only on x-axis (y-axis) quantities, resolved through let bindings and (x, y)-pair destructuring. Equality of geometry across constraint pairs and spellings (extent / three_point arithmetic, value splitting) is NOT decided.",
+        design_ref="DESIGN.md section 4 C11",
+        note="Trusted: rustc HIR. Axis classification of identifiers follows the code base's own vocabulary (assumption listed in the evidence).",
+        technique="static analysis: typed-HIR literal arrays and per-arm summaries (A14/A15), let-resolving axis dataflow over expressions",
+    ),
+    "C12": dict(
+        text="Decides hygiene and branch wiring of containment: every successful exit of handle_containment except the neither-present return passes remove_attrs([surround, inside, margin]); surround/inside select get_element_bbox-union-expand-circumscribe / inscribed_bbox-intersection-shrink-inscribe; per shape, position_from_bbox sets the attributes from the matching quantities with SQRT_2 exactly on the circumscribing side (min vs max for circles); intersection() folds over a carried accumulator; unknown or box-less references are errors. Enclosure inequalities, margin arithmetic and percent bases are numeric and NOT decided.",
+        design_ref="DESIGN.md section 4 C12",
+        note="Trusted: rustc HIR/MIR.",
+        technique="static analysis: MIR must-pass on Ok exits (A5/A14), typed-HIR branch and arm summaries against reference tables (A15), accumulator dataflow",
+    ),
+    "C13": dict(
+        text="Decides hygiene, route structure and wiring of connectors: start/end/corner-offset are popped on every successful path and edge-type is stripped; in every corner-route arm consecutive points share an operand in one coordinate (axis-parallel), the route runs start -> end, first/last segments are perpendicular to the chosen edges, U-routes turn beyond the boxes on the side of their direction; h/v connectors are axis-parallel through the overlap (max of mins, min of maxes) with both siblings using the element map; location -> direction table, edge-type words, and the closest_loc/shortest_link choice when locations are omitted. Minimal-distance choice, offsets and overlap arithmetic are numeric and NOT decided.",
+        design_ref="DESIGN.md section 4 C13",
+        note="Trusted: rustc HIR/MIR.",
+        technique="static analysis: typed-HIR route-literal extraction with canonical operand identity (A15), sibling agreement (A16), MIR must-pass (A14)",
+    ),
     "C06": dict(
         text="Decides the absence of order- and environment-dependent constructs: every iteration (or Debug rendering) of a HashMap/HashSet is followed to an order-insensitive consumer or a reviewed table line; clock/env/pid/unseeded-RNG calls occur only under use_local_styles and the randomised id is reset whenever local styles are off; the single Pcg32 is seeded from config.seed, reseeded only by set_config and consumed only by random()/randint(); output is merged through a BTreeMap<OrderIndex,_>. This is the whole mechanism behind the property; cross-platform floating point is outside the statement.",
         design_ref="DESIGN.md section 4 C06",
@@ -95,14 +131,4 @@ CLAIMED = {
     ),
 }
 
-NOT_APPLICABLE = {
-    pid: RULE_NOT_BUILT + why
-    for pid, why in {
-        "C04": "planned: pass-through filter; acceptance of the SVG grammars is a language-inclusion question, not a shape property",
-        "C08": "planned: guarded root inserts; the extent value is numeric",
-        "C09": "selection-table wiring only would be decidable; placement arithmetic is numeric",
-        "C11": "planned: attribute hygiene per shape; constraint solving is numeric",
-        "C12": "planned: attribute hygiene and branch wiring; enclosure is numeric",
-        "C13": "planned: attribute hygiene and route structure; distances are numeric",
-    }.items()
-}
+NOT_APPLICABLE = {}
